@@ -66,7 +66,10 @@ fn check_raw(ctx: &mut Ctx, c: &Case, out: &Outcome, req: &str) {
     }
     if let Err(e) = oracle::finish_once_last(&out.trace) {
         ctx.violation("C01", req, e.clone());
-        ctx.violation("C08", req, e);
+        ctx.violation("C08", req, e.clone());
+        if c.dl.is_some() {
+            ctx.violation("C07", req, e);
+        }
     }
     let calls = oracle::strip_finish(&out.trace);
     let r = ranges(c);
@@ -78,7 +81,10 @@ fn check_raw(ctx: &mut Ctx, c: &Case, out: &Outcome, req: &str) {
         return;
     }
     if let Err(e) = oracle::carried_run_relative(r, &calls) {
-        ctx.violation("C01", req, e);
+        ctx.violation("C01", req, e.clone());
+        if c.dl.is_some() {
+            ctx.violation("C07", req, e);
+        }
     }
     if let Err(e) = oracle::replay(&c.old, &c.new, c.o_off, c.n_off, r, &calls) {
         ctx.violation("C01", req, e);
@@ -431,20 +437,33 @@ pub fn suite_stacks(ctx: &mut Ctx) {
     for (old, new) in &pairs {
         for alg in ALGS {
             for stack in Stack::ALL {
-                for native in [true, false] {
+                for (native, dl) in [(true, None), (false, None), (true, Some(0u64)), (false, Some(1u64))] {
                     if !ctx.take() {
                         continue;
                     }
                     let mut c = Case::full(alg, old, new);
                     c.stack = stack;
                     c.native_replace = native;
+                    c.dl = dl;
                     let (req, full) = emit_case(ctx, &c);
                     if full.status != Status::Ok {
                         ctx.violation("C08", &req, format!("run without failing hook: {:?}", full.status));
                         continue;
                     }
                     let fins = full.trace.iter().filter(|x| **x == Call::Finish).count();
-                    if stack == Stack::NoFinish {
+                    if stack == Stack::ReplaceNoFinish {
+                        // Replace in front of the wrapper: the wrapper must forward `replace` itself,
+                        // so the hook sees what Replace alone delivers, minus the finish
+                        if fins != 0 {
+                            ctx.violation("C08", &req, "NoFinishHook forwarded finish".to_string());
+                        }
+                        let mut p = c.clone();
+                        p.stack = Stack::Replace;
+                        let plain = run_case(&p);
+                        if oracle::strip_finish(&plain.trace) != full.trace {
+                            ctx.violation("C08", &req, "NoFinishHook under Replace did not forward every call (replace included) unchanged".to_string());
+                        }
+                    } else if stack == Stack::NoFinish {
                         if fins != 0 {
                             ctx.violation("C08", &req, "NoFinishHook forwarded finish".to_string());
                         }
@@ -461,7 +480,7 @@ pub fn suite_stacks(ctx: &mut Ctx) {
                     if !native && full.trace.iter().any(|x| matches!(x, Call::Replace(..))) {
                         ctx.violation("C08", &req, "hook without replace override saw a replace".to_string());
                     }
-                    if !native && matches!(stack, Stack::Replace | Stack::CompactReplace) {
+                    if !native && matches!(stack, Stack::Replace | Stack::CompactReplace | Stack::ReplaceNoFinish) {
                         // default replace = delete then insert: compare with the native run
                         let mut nn = c.clone();
                         nn.native_replace = true;
@@ -540,7 +559,12 @@ pub fn suite_deadline(ctx: &mut Ctx) {
             if alg == Algorithm::Lcs && old.len() + new.len() > 100 {
                 continue;
             }
-            let base = Case::full(alg, old, new);
+            let mut base = Case::full(alg, old, new);
+            // every third pair: a sub-range whose old and new starts differ
+            if pi % 3 == 1 && old.len() >= 2 && new.len() >= 3 {
+                base.os = 1;
+                base.ns = 2;
+            }
             let none = run_case(&base);
             // a deadline that never expires
             let mut never = base.clone();
@@ -572,7 +596,7 @@ pub fn suite_deadline(ctx: &mut Ctx) {
                     if let Some(at) = out.at_expiry {
                         let after = out.cmps - at;
                         ctx.max(&format!("deadline.max_cmps_after_expiry_x1000_per_item.{}", alg_name(alg)), after * 1000 / ((old.len() + new.len()) as u64).max(1));
-                        if after > post_expiry_bound(alg, old.len(), new.len()) {
+                        if after > post_expiry_bound(alg, base.oe - base.os, base.ne - base.ns) {
                             ctx.violation("C07", &req, format!("{} comparisons after expiry for N+M = {}", after, old.len() + new.len()));
                         }
                         ctx.nontrivial(&req);
@@ -903,6 +927,7 @@ pub fn replay(line: &str) {
                     "nofinish" => Stack::NoFinish,
                     "replace" => Stack::Replace,
                     "compact" => Stack::Compact,
+                    "replacenofinish" => Stack::ReplaceNoFinish,
                     _ => Stack::CompactReplace,
                 };
                 c.dl = parse_opt(hd[3]);
